@@ -218,15 +218,16 @@ def gen_plans(chk, quick):
     g = pr.dump_graph(chk, "Gen_racy.cfg", _specdir=SPECDIR, _module="ProxyRelay")
     chk.note("ProxyRelay: racy graph %d states, %d edges" % (g.nstates, g.nedges))
     for name, goal in RACY_GOALS:
-        steps = g.path(["Start"] + goal, rot=chk.seed - 1)
-        if steps is None:
-            raise vlib.Inconclusive("ProxyRelay vacuity: no behaviour takes %s" % goal)
-        plans.append(to_plan("relay-" + name, [pr.label_of(s) for s in steps], None, chk.seed, racy=True))
+        for v in ([0] if quick else [0, 1, 2]):
+            steps = g.path(["Start"] + goal, rot=chk.seed - 1 + v)
+            if steps is None:
+                raise vlib.Inconclusive("ProxyRelay vacuity: no behaviour takes %s" % goal)
+            plans.append(to_plan("relay-%s%s" % (name, "-v%d" % v if v else ""), [pr.label_of(s) for s in steps], None, chk.seed + 10 * v, racy=True))
     del g
-    sims = simulate(chk, 40 if quick else 160, chk.seed * 100 + 7)
+    sims = simulate(chk, 40 if quick else 300, chk.seed * 100 + 7)
     sims = [s for s in sims if sum(1 for l in s[0] if l.startswith("Start")) == 2]
     order = sorted(range(len(sims)), key=lambda i: (-richness(sims[i][0]), i))
-    take = 6 if quick else 20
+    take = 6 if quick else 40
     seen = set()
     for i in order:
         key = " ".join(l for l in sims[i][0] if l.split("(")[0] in ENV_ACTS)
@@ -294,6 +295,9 @@ def judge(out):
             kind = "stale" if v2 in ("invariant", "accepted") else "wrong"
             return "violation", "C16/relay/figures-%s" % kind, "the traffic figures read at OnClose (%s) are not the bytes counted so far for the session (model of the repaired code); %s" % (
                 json.dumps(e), "they are explained by amounts still waiting in the logger's channels" if kind == "stale" else "no deviation explains them")
+        if e.get("ev") == "event.over":
+            return "violation", "C16/relay/event-figures", "the figures a listener of the proxy's dispatcher received (%s) are not the ones of any session that has just got over: %s" % (
+                json.dumps(e), json.dumps([[x.get("s"), x.get("in"), x.get("out")] for x in ev if x.get("ev") == "dc.onclose"]))
         if e.get("ev") == "end":
             v2, d2, _ = validate(ev, n, hang=True)
             return "violation", "C16/relay/not-over", "at the end of the recording a session one of whose ends closed is not over (event, slot, copiers, pc.Close): %s" % json.dumps(
